@@ -120,10 +120,16 @@ def spellings(cls, rng, full=False):
         refs.append(('whole-col', '$%s:$%s' % (a.lower(), b), {}, 'cols'))
         refs.append(('whole-col', '%s:%s' % (a.lower(), b.lower()), {}, 'cols'))
         refs.append(('whole-col', '%s:$%s' % (a, b.lower()), {}, 'cols'))
+        if c1 != c2:   # corners in descending order
+            refs.append(('whole-col', '%s:%s' % (b, a), {}, 'cols'))
+            refs.append(('whole-col', '$%s:$%s' % (b.lower(), a), {}, 'cols'))
     if whole_row and not whole_col:
         refs.append(('whole-row', '%d:%d' % (r1, r2), {}, 'rows'))
         refs.append(('whole-row', '$%d:$%d' % (r1, r2), {}, 'rows'))
         refs.append(('whole-row', '%d:$%d' % (r1, r2), {}, 'rows'))
+        if r1 != r2:
+            refs.append(('whole-row', '%d:%d' % (r2, r1), {}, 'rows'))
+            refs.append(('whole-row', '$%d:$%d' % (r2, r1), {}, 'rows'))
     if whole_row and whole_col:
         refs.append(('whole-sheet', 'A:XFD', {}, 'sheet-cols'))
         refs.append(('whole-sheet', '$a:xfd', {}, 'sheet-cols'))
@@ -172,6 +178,13 @@ def spellings(cls, rng, full=False):
             yield kind + '/book', '%s!%s' % (q, ref), dict(extra, sheet='ZZ'), form
             q2 = "'%s[%s]%s'" % (dd, book, sheet.swapcase().replace("'", "''"))
             yield kind + '/book-sheetcase', '%s!%s' % (q2, ref), dict(extra), form
+            # [0] is the workbook of the host cell itself
+            own = dict(base_ctx, **extra)
+            own['sheet'] = 'ZZ'
+            yield kind + '/own-index', "'[0]%s'!%s" % (sheet.replace("'", "''"), ref), own, form
+            if not needs_q:
+                yield kind + '/own-index', '[0]%s!%s' % (rng.choice((
+                    sheet, sheet.lower())), ref), dict(own), form
             if not needs_q:
                 yield kind + '/extlink', '[3]%s!%s' % (sheet, ref), dict(
                     extra, external_links={'3': (d, book), '4': ('', 'zz.xlsx')}), form
